@@ -128,7 +128,7 @@ Section Focus.
   Variable f : option dm -> option dm.
   Variable cp : bool.
   (* the callback only hands out nodes with unique map keys (every real node is such) *)
-  Hypothesis f_wf : forall x v, f x = Some v -> wf_dm v = true.
+  Hypothesis f_wf : forall x v, owf x -> f x = Some v -> wf_dm v = true.
 
   (* no block of the store sits under the link of a different block (no hash collision in the store) *)
   Definition coherent (s : store) : Prop := forall b v, lookup (mklink b) s = Some v -> v = b.
@@ -261,7 +261,7 @@ Section Focus.
       destruct (f n) as [v|] eqn:Ef; cbn [option_map assign_node].
       - destruct na; try contradiction; (repeat split;
           [cbn [slot_of]; now rewrite raw_inject | apply extends_refl
-          | intros; apply valid_inject | apply wfx_inject; eapply f_wf; eassumption
+          | intros; apply valid_inject | apply wfx_inject; eapply f_wf; [|eassumption]; subst n; destruct cur; simpl; [apply wfx_raw_wf; apply Hcur | exact I]
           | exists 1%nat; split; [lia | reflexivity]]).
       - destruct na; try contradiction; try (exfalso; now apply Hna);
           (repeat split; [apply extends_refl | exists 1%nat; split; [lia | reflexivity]]). }
@@ -361,7 +361,7 @@ Section Focus.
                 ** intros; apply valid_inject.
                 ** rewrite Forall_forall in *. intros y0 Hy0. eapply valid_mono; [exact HS | auto].
              ++ constructor; [now apply uniqb_replace|]. apply Forall_replace_kv; [|assumption].
-                intros; apply wfx_inject. eapply f_wf; eassumption.
+                intros; apply wfx_inject. eapply f_wf; [|eassumption]. simpl. apply wfx_raw_wf, Hc.
              ++ exists 1%nat. split; [lia | reflexivity].
           -- rewrite (map_loop_hit_del _ s [] (rawm m) _ (raw c) Hu Hfr). simpl.
              repeat split.
